@@ -659,8 +659,9 @@ class ViewRepresentation(OperatorPlatform, abc.ABC):
                     self.ops, parsed_ops
                 )
                 if new_ops is not None:
-                    return ExtendNode(
-                        source=self.sources[0],
+                    # the merged step may in turn merge with the step below it (as it will when the
+                    # printed pipeline is built again)
+                    return self.sources[0].extend_parsed_(
                         parsed_ops=new_ops,
                         partition_by=partition_by,
                         order_by=order_by,
